@@ -302,6 +302,23 @@ func run(seed int64, n int, dir string, _ []string) {
 		_, _ = pr.Exec("DECLARE cntpos AGGREGATE (c) AS BEGIN VAR @n := 0; VAR @x; WHILE @x IN c DO IF @x > 0 THEN @n := @n + 1; END IF; END WHILE; RETURN @n; END;")
 		const aggs = "COUNT(*) AS n, COUNT(v) AS nv, SUM(v) AS s, MIN(v) AS mn, MAX(v) AS mx, AVG(v) AS av, MEDIAN(v) AS md, COUNT(DISTINCT v) AS cd, SUM(DISTINCT v) AS sd, LISTAGG(v, ',') AS lv, LISTAGG(DISTINCT v, ';') AS ld, JSON_AGG(v) AS ja, STDEV(v) AS sv, VAR(v) AS vr, cntpos(v) AS up, LISTAGG(v, ',') WITHIN GROUP (ORDER BY id * -1) AS lo, JSON_AGG(id) WITHIN GROUP (ORDER BY v * -1, id) AS jo"
 		const naggs = 17
+		// aggregates whose argument is a column ADDED by the select list itself (a constant under an alias): it has one
+		// value per row of the bucket like any other column, so SUM(1) = COUNT(x) = the bucket's row count
+		if av, err := pr.Query("SELECT LISTAGG(id, ',') AS ids, 1 AS one, 'x' AS tag, 2.5 AS half, COUNT(*) AS n, SUM(one) AS s1, COUNT(tag) AS c1, cntpos(one) AS u1, SUM(half) AS s2, MIN(tag) AS m1, LISTAGG(tag, '') AS l1 FROM t GROUP BY " + keyList); err != nil {
+			o.Law("group_sql_error", err.Error())
+		} else {
+			for gi := 0; gi < av.RecordLen(); gi++ {
+				n := hc.StrOf(hc.ViewCell(av, gi, 4))
+				nn, _ := strconv.Atoi(n)
+				want := []string{n, n, n, strconv.FormatFloat(2.5*float64(nn), 'f', -1, 64), "x", strings.Repeat("x", nn)}
+				for c, w := range want {
+					if got := hc.StrOf(hc.ViewCell(av, gi, 5+c)); got != w {
+						o.Law("aggregate_over_added_column", map[string]interface{}{"members": hc.StrOf(hc.ViewCell(av, gi, 0)), "column": []string{"SUM(one)", "COUNT(tag)", "cntpos(one)", "SUM(half)", "MIN(tag)", "LISTAGG(tag)"}[c], "got": got, "want": w, "bucket_rows": n})
+					}
+				}
+				o.Count("added_column_aggregate_checks")
+			}
+		}
 		v, err := pr.Query("SELECT LISTAGG(id, ',') AS ids, " + aggs + " FROM t GROUP BY " + keyList)
 		if err != nil {
 			o.Law("group_sql_error", err.Error())
